@@ -1615,7 +1615,9 @@ class VM:
             # Sort using Python's sort with custom key
             from functools import cmp_to_key
 
-            arr._elements.sort(key=cmp_to_key(compare_fn))
+            # A copy is sorted: the comparator is script code and may change
+            # the array while it is being sorted, which list.sort() refuses
+            arr._elements[:] = sorted(arr._elements, key=cmp_to_key(compare_fn))
             return arr
 
         methods = {
